@@ -68,7 +68,9 @@ func inlineFresh(repo string, env []string, freshKeys map[string]bool) (dir stri
 	type written struct {
 		file, key string
 		prev      []byte
+		xt        bool
 	}
+	forceBlock := map[string]bool{}
 	var pending []written
 	for round := 0; round <= 24; round++ {
 		cfg := &packages.Config{Mode: packages.LoadSyntax, Dir: dir, Tests: false, Env: append(os.Environ(), env...)}
@@ -85,7 +87,11 @@ func inlineFresh(repo string, env []string, freshKeys map[string]bool) (dir stri
 				for _, gf := range pk.GoFiles {
 					if gf == w.file {
 						_ = os.WriteFile(w.file, w.prev, 0o644)
-						refused[w.key] = true
+						if w.xt {
+							forceBlock[w.key] = true // the inliner's result does not compile (v0.29.0 puts an untyped nil where the parameter was): the second way binds the arguments to typed variables
+						} else {
+							refused[w.key] = true
+						}
 						done--
 						reverted = true
 						notes = append(notes, "taken back: "+w.key+" ("+pk.Errors[0].Msg+")")
@@ -180,19 +186,23 @@ func inlineFresh(repo string, env []string, freshKeys map[string]bool) (dir stri
 					refused[key] = true
 					continue
 				}
-				ce, aerr := inline.AnalyzeCallee(func(string, ...any) {}, pk.Fset, pk.Types, pk.TypesInfo, decls[callee], calleeContent)
-				if aerr != nil {
-					refused[key] = true
-					notes = append(notes, "not inlined: "+ObjKey(callee)+": "+aerr.Error())
-					continue
+				var res *inline.Result
+				if !forceBlock[key] {
+					ce, aerr := inline.AnalyzeCallee(func(string, ...any) {}, pk.Fset, pk.Types, pk.TypesInfo, decls[callee], calleeContent)
+					if aerr != nil {
+						refused[key] = true
+						notes = append(notes, "not inlined: "+ObjKey(callee)+": "+aerr.Error())
+						continue
+					}
+					var ierr error
+					res, ierr = inline.Inline(&inline.Caller{Fset: pk.Fset, Types: pk.Types, Info: pk.TypesInfo, File: f, Call: call, Content: content}, ce, &inline.Options{})
+					if ierr != nil {
+						refused[key] = true
+						notes = append(notes, "not inlined: "+ObjKey(callee)+": "+ierr.Error())
+						continue
+					}
 				}
-				res, ierr := inline.Inline(&inline.Caller{Fset: pk.Fset, Types: pk.Types, Info: pk.TypesInfo, File: f, Call: call, Content: content}, ce, &inline.Options{})
-				if ierr != nil {
-					refused[key] = true
-					notes = append(notes, "not inlined: "+ObjKey(callee)+": "+ierr.Error())
-					continue
-				}
-				if res.Literalized {
+				if res == nil || res.Literalized {
 					// the helper's body could only be put there as a function literal that is called on the spot: that is
 					// no closer to the shape before the extraction than the call itself. The second way (blockInline)
 					// evaluates the helper's body in front of the statement.
@@ -207,7 +217,7 @@ func inlineFresh(repo string, env []string, freshKeys map[string]bool) (dir stri
 						refused[key] = true
 						continue
 					}
-					pending = append(pending, written{name, key, content})
+					pending = append(pending, written{name, key, content, false})
 					dirty[name] = true
 					notes = append(notes, "inlined "+ObjKey(callee)+" at "+strings.TrimPrefix(name, dir+"/")+" (body evaluated in front of the statement)")
 					done++
@@ -219,6 +229,7 @@ func inlineFresh(repo string, env []string, freshKeys map[string]bool) (dir stri
 					continue
 				}
 				notes = append(notes, "inlined "+ObjKey(callee)+" at "+strings.TrimPrefix(name, dir+"/"))
+				pending = append(pending, written{name, key, content, true})
 				dirty[name] = true
 				done++
 				progress = true
@@ -267,11 +278,13 @@ func inlineFresh(repo string, env []string, freshKeys map[string]bool) (dir stri
 					}
 				}
 			}
+			backup := map[string][]byte{}
 			for name, cs := range cuts {
 				b, rerr := os.ReadFile(name)
 				if rerr != nil {
 					continue
 				}
+				backup[name] = append([]byte(nil), b...)
 				sort.Slice(cs, func(i, j int) bool { return cs[i].from > cs[j].from })
 				for _, c := range cs {
 					if c.from >= 0 && c.to <= len(b) && c.from < c.to {
@@ -305,6 +318,32 @@ func inlineFresh(repo string, env []string, freshKeys map[string]bool) (dir stri
 					}
 				}
 				_ = os.WriteFile(name, b, 0o644)
+			}
+			// a removed method may have been what made its type implement an interface (no use of the method itself is
+			// recorded for that): when the copy does not compile without the helpers, they stay
+			if len(backup) > 0 {
+				broken := false
+				if pkgs2, lerr2 := packages.Load(cfg, "./..."); lerr2 != nil {
+					broken = true
+				} else {
+					for _, pk := range pkgs2 {
+						if len(pk.Errors) > 0 {
+							broken = true
+						}
+					}
+				}
+				if broken {
+					for name, b := range backup {
+						_ = os.WriteFile(name, b, 0o644)
+					}
+					var kept []string
+					for _, n := range notes {
+						if !strings.HasPrefix(n, "removed ") {
+							kept = append(kept, n)
+						}
+					}
+					notes = append(kept, "the helpers without a call left stay in the copy (it does not compile without them)")
+				}
 			}
 		}
 	}
@@ -661,6 +700,10 @@ func blockInline(pk *packages.Package, f *ast.File, content []byte, call *ast.Ca
 		}
 	}
 	label := pfx + "done"
+	errLast := false
+	if n := sig.Results().Len(); n > 0 {
+		errLast = types.Identical(sig.Results().At(n-1).Type(), types.Universe.Lookup("error").Type())
+	}
 	// the body with its returns rewritten (from the last to the first, by offset in the helper's file)
 	body := calleeContent[off(fd.Body.Lbrace)+1 : off(fd.Body.Rbrace)]
 	base := off(fd.Body.Lbrace) + 1
@@ -685,6 +728,20 @@ func blockInline(pk *packages.Package, f *ast.File, content []byte, call *ast.Ca
 				vals = append(vals, src(calleeContent, e))
 			}
 			fmt.Fprintf(&rep, "%s = %s; ", strings.Join(outs, ", "), strings.Join(vals, ", "))
+		}
+		// the error result: leave on two ways, one for "failed" and one for "succeeded" (assigning nil where it is nil
+		// changes nothing). The loader tells the two apart where they meet again (normphi.go); a returned `g()` or
+		// `err` would otherwise be a value it knows nothing about.
+		if k := len(results) - 1; k >= 0 && errLast {
+			plainNil := false
+			if len(rs.Results) == len(results) {
+				if id, isId := rs.Results[k].(*ast.Ident); isId && id.Name == "nil" {
+					plainNil = true
+				}
+			}
+			if !plainNil {
+				fmt.Fprintf(&rep, "if %s != nil { break %s }; %s = nil; ", outs[k], label, outs[k])
+			}
 		}
 		fmt.Fprintf(&rep, "break %s }", label)
 		from, to := off(rs.Pos())-base, off(rs.End())-base
